@@ -16,6 +16,8 @@ rewrites -- the inverse of the usual clean-up refactorings:
       expression; a helper called as a statement, as `x = helper(..)`, or via
       `yield from helper(..)` whose body has its only `return` at the end is
       spliced into the caller with its locals renamed
+  N5  a `for` over a NEW literal table (tuple of rows) is unrolled
+  N6  a NEW single-use temporary is replaced by its defining expression
   N4  `yield from E`                -> `for _y in E: yield _y`
       `isinstance(x, (A, B))`       -> `isinstance(x, A) or isinstance(x, B)`
       `x.matches(Cls)`              -> `isinstance(x, Cls)`   (Cls a class)
@@ -60,13 +62,20 @@ def _is_simple_literal(e, budget=24):
             e.value is None
     if isinstance(e, ast.Tuple):
         return len(e.elts) <= budget and all(
-            _is_simple_literal(x, budget) for x in e.elts)
+            _is_simple_literal(x, budget) or _is_dotted(x) for x in e.elts)
     if isinstance(e, ast.UnaryOp) and isinstance(e.op, ast.USub):
         return _is_simple_literal(e.operand)
     if isinstance(e, ast.BinOp) and isinstance(
             e.op, (ast.Add, ast.Sub, ast.Mult, ast.LShift, ast.BitOr)):
         return _is_num(e.left) and _is_num(e.right)
     return False
+
+
+def _is_dotted(e):
+    """module.Class / Class: a reference to a module-level object"""
+    while isinstance(e, ast.Attribute):
+        e = e.value
+    return isinstance(e, ast.Name)
 
 
 def _is_num(e):
@@ -263,6 +272,8 @@ class _N1(ast.NodeTransformer):
 
 
 def _alias_like(e, params, depth=0):
+    if depth == 0 and _is_simple_literal(e):
+        return True                    # a hoisted literal
     if isinstance(e, ast.Name):
         return True
     if isinstance(e, ast.Attribute):
@@ -316,6 +327,9 @@ def n2_alias_locals(fnode, keep=()):
                 continue
             e = st.value
             if not _alias_like(e, params):
+                continue
+            if _is_simple_literal(e):
+                cands[v] = (st, e)
                 continue
             src = e.args[0] if isinstance(e, ast.Call) else e
             p = _root_path(src)
@@ -842,6 +856,17 @@ class _N4(ast.NodeTransformer):
             for x in ast.walk(r):
                 ast.copy_location(x, n)
             return r
+        # dict(k=v, ...) -> {'k': v, ...}
+        if isinstance(n.func, ast.Name) and n.func.id == 'dict' and \
+                not n.args and n.keywords and \
+                all(k.arg is not None for k in n.keywords):
+            self.changed = True
+            r = ast.Dict(keys=[ast.Constant(value=k.arg) for k in n.keywords],
+                         values=[k.value for k in n.keywords])
+            for x in ast.walk(r):
+                if not hasattr(x, 'lineno'):
+                    ast.copy_location(x, n)
+            return ast.copy_location(r, n)
         # x.matches(Cls) -> isinstance(x, Cls)
         if isinstance(n.func, ast.Attribute) and n.func.attr == 'matches' \
                 and len(n.args) == 1 and not n.keywords and \
@@ -869,6 +894,119 @@ class _N4(ast.NodeTransformer):
                 ast.copy_location(x, n)
             return r
         return n
+
+
+# ------------------------------------------------------------------ N6 --------
+
+def n6_single_use_temps(fnode, keep=()):
+    """a NEW local assigned once from a pure expression and read exactly once,
+    in a later statement of the same block, with nothing in between that
+    could change what the expression reads, is replaced by the expression
+    (the inverse of "split the expression with a temporary")."""
+    changed = [False]
+    stores, loads = {}, {}
+    for n in _own_walk(fnode):
+        if isinstance(n, ast.Name):
+            d = stores if isinstance(n.ctx, (ast.Store, ast.Del)) else loads
+            d[n.id] = d.get(n.id, 0) + 1
+    params = {a.arg for a in fnode.args.args + fnode.args.kwonlyargs +
+              fnode.args.posonlyargs}
+
+    def free_names(e):
+        return {x.id for x in ast.walk(e) if isinstance(x, ast.Name)}
+
+    def stmt_stores(st):
+        out = set()
+        for x in ast.walk(st):
+            if isinstance(x, ast.Name) and isinstance(x.ctx, (ast.Store,
+                                                              ast.Del)):
+                out.add(x.id)
+        return out
+
+    def has_effects(st):
+        for x in ast.walk(st):
+            if isinstance(x, (ast.Call, ast.Yield, ast.YieldFrom, ast.Await)):
+                return True
+            if isinstance(x, (ast.Attribute, ast.Subscript)) and \
+                    isinstance(x.ctx, (ast.Store, ast.Del)):
+                return True
+        return False
+
+    def reads_heap(e):
+        return any(isinstance(x, (ast.Attribute, ast.Subscript, ast.Call))
+                   for x in ast.walk(e))
+
+    def do_list(stmts):
+        i = 0
+        while i < len(stmts):
+            st = stmts[i]
+            for fld in ('body', 'orelse', 'finalbody'):
+                sub = getattr(st, fld, None)
+                if isinstance(sub, list) and not isinstance(
+                        st, (ast.FunctionDef, ast.AsyncFunctionDef,
+                             ast.ClassDef)):
+                    do_list(sub)
+            for h in getattr(st, 'handlers', []) or []:
+                do_list(h.body)
+            if isinstance(st, ast.Assign) and len(st.targets) == 1 and \
+                    isinstance(st.targets[0], ast.Name):
+                v = st.targets[0].id
+                if stores.get(v) == 1 and loads.get(v) == 1 and \
+                        v not in keep and v not in params and \
+                        _pure_expr(st.value) and not any(
+                            isinstance(x, (ast.ListComp, ast.GeneratorExp,
+                                           ast.SetComp, ast.DictComp))
+                            for x in ast.walk(st.value)) and (
+                            not any(isinstance(x, (ast.List, ast.Dict,
+                                                   ast.Set))
+                                    for x in ast.walk(st.value)) or
+                            (i + 1 < len(stmts) and any(
+                                isinstance(x, ast.Name) and x.id == v
+                                for x in _own_walk(stmts[i + 1])))):
+                    fn = free_names(st.value)
+                    heap = reads_heap(st.value)
+                    # find the single use in a later statement of this block
+                    for j in range(i + 1, len(stmts)):
+                        uses = [x for x in _own_walk(stmts[j])
+                                if isinstance(x, ast.Name) and x.id == v and
+                                isinstance(x.ctx, ast.Load)]
+                        if uses:
+                            tgt = stmts[j]
+                            # inside a loop / comprehension the expression
+                            # would be re-evaluated: only straight-line use
+                            ok = len(uses) == 1 and not isinstance(
+                                tgt, (ast.For, ast.While, ast.AsyncFor))
+                            if ok and isinstance(tgt, (ast.If, ast.With,
+                                                       ast.Try)):
+                                # allowed only in the header expression
+                                hdr = tgt.test if isinstance(tgt, ast.If) \
+                                    else None
+                                ok = hdr is not None and any(
+                                    x is uses[0] for x in ast.walk(hdr))
+                            if ok and any(isinstance(x, (
+                                    ast.Lambda, ast.ListComp,
+                                    ast.GeneratorExp, ast.SetComp,
+                                    ast.DictComp)) and any(
+                                        y is uses[0] for y in ast.walk(x))
+                                    for x in ast.walk(tgt)):
+                                ok = False
+                            if ok:
+                                env = {v: st.value}
+                                stmts[j] = _subst_stmt(tgt, env)
+                                ast.copy_location(stmts[j], tgt)
+                                del stmts[i]
+                                changed[0] = True
+                                i -= 1
+                            break
+                        # an intervening statement must not disturb the value
+                        if stmt_stores(stmts[j]) & fn or (
+                                heap and has_effects(stmts[j])):
+                            break
+            i += 1
+    do_list(fnode.body)
+    if not fnode.body:
+        fnode.body = [ast.Pass()]
+    return changed[0]
 
 
 # ------------------------------------------------------------------ N5 --------
@@ -1021,44 +1159,82 @@ def normalise(model, stats=None):
     consts = ConstTable(model, base)
     inl = Inliner(model, base['functions'])
     count = {'N1': 0, 'N2': 0, 'N3-expr': 0, 'N3-splice': 0, 'N4': 0}
-    funcs = sorted(model.functions.values(), key=lambda f: f.qual)
+    funcs = sorted((f for f in model.functions.values() if f.outer is None),
+                   key=lambda f: f.qual)
+    new_funcs = {f.name for f in model.functions.values()
+                 if f.qual not in base['functions']}
+    new_consts = {k[1] for k in consts.mod} | {k[1] for k in consts.cls}
+
+    def facts(f):
+        names, attrs = set(), set()
+        n4 = False
+        for x in ast.walk(f.node):
+            if isinstance(x, ast.Name):
+                names.add(x.id)
+            elif isinstance(x, ast.Attribute):
+                attrs.add(x.attr)
+            elif isinstance(x, ast.YieldFrom):
+                n4 = True
+        if 'matches' in attrs or 'isinstance' in names or \
+                'startswith' in attrs or 'endswith' in attrs or \
+                'dict' in names:
+            n4 = True
+        return names, attrs, n4
+
     for _round in range(ROUNDS):
         any_change = False
+        todo = []
         for f in funcs:
-            if f.outer is not None:
-                continue
-            local = _local_names(f.node)
-            t1 = _N1(consts, f, local)
-            t1.visit(f.node)
-            if t1.changed:
-                count['N1'] += 1
-                any_change = True
-            t4 = _N4(model, f)
-            t4.visit(f.node)
-            if t4.changed:
-                count['N4'] += 1
-                any_change = True
+            names, attrs, n4 = facts(f)
+            used = names | attrs
+            dirty = f.qual not in base['functions'] or \
+                bool(used & new_funcs) or bool(used & new_consts) or \
+                bool(_local_names(f.node) -
+                     base['locals'].get(f.qual, set()))
+            if dirty or n4:
+                todo.append((f, dirty, n4))
+        for (f, dirty, n4) in todo:
+            if dirty:
+                local = _local_names(f.node)
+                t1 = _N1(consts, f, local)
+                t1.visit(f.node)
+                if t1.changed:
+                    count['N1'] += 1
+                    any_change = True
+            if n4:
+                t4 = _N4(model, f)
+                t4.visit(f.node)
+                if t4.changed:
+                    count['N4'] += 1
+                    any_change = True
             ast.fix_missing_locations(f.node)
+        touched = {f.module.name for (f, _d, _n) in todo}
         for m in model.modules.values():
-            _reparent(m.tree)
-        for f in funcs:
-            if f.outer is not None:
+            if m.name in touched:
+                _reparent(m.tree)
+        for (f, dirty, n4) in todo:
+            if not dirty:
                 continue
+            keep = base['locals'].get(f.qual, ())
             if inl.inline_exprs(f):
                 count['N3-expr'] += 1
                 any_change = True
             if inl.splice(f):
                 count['N3-splice'] += 1
                 any_change = True
-            if n2_alias_locals(f.node, base['locals'].get(f.qual, ())):
+            if n2_alias_locals(f.node, keep):
                 count['N2'] += 1
                 any_change = True
-            if n5_unroll_tables(f.node, base['locals'].get(f.qual, ())):
+            if n6_single_use_temps(f.node, keep):
+                count['N6'] = count.get('N6', 0) + 1
+                any_change = True
+            if n5_unroll_tables(f.node, keep):
                 count['N5'] = count.get('N5', 0) + 1
                 any_change = True
             ast.fix_missing_locations(f.node)
         for m in model.modules.values():
-            _reparent(m.tree)
+            if m.name in touched:
+                _reparent(m.tree)
         model._callgraph = None
         if not any_change:
             break
